@@ -29,13 +29,15 @@ RULE = ("evaluations = runs of the real execute_air (honest runs of every histor
         "distinct = distinct (script, step, mutation, code, data kind) of runs that are non-trivial: a failing code with NON-EMPTY previous "
         "data (so that 'previous' differs from 'empty'), or a non-failing code in a run that consumed results / issued requests / has next peers")
 PARTIAL = [
-    "C02_fail_keeps_prev carries the explicit hypothesis compactify_ok: Streams::compactify (RunExec's section variable finish_streams) "
-    "succeeds on the final context. outcome.rs execution_error_into_outcome would answer a 2xxxx code with EMPTY data otherwise "
-    "(C02_internal_error_branch exhibits that branch in the model of the code for an arbitrary failing finish_streams). That the real "
-    "compactification cannot fail needs the stream invariant 'every live stream value's trace position points at an Ap / stream Call state "
-    "of the result trace' by induction over the executor (DESIGN 6/C02 compactify_total): the local half is proved "
-    "(C02_compactify_sufficient: a plan whose positions all point at such states runs to the end), the induction over exec is not; reading of ap.rs, ap_map.rs, "
-    "call_result_setter.rs, prev_result_handler.rs, state_inserter.rs finds no way to break it and no generated or tampered run reached it",
+    "C02_fail_keeps_prev / C02_code_classes are stated for an ARBITRARY stream hook and compactification function (RunExec's section variables) "
+    "and therefore carry the hypothesis compactify_ok (C02_internal_error_branch: outcome.rs execution_error_into_outcome answers a 2xxxx code with "
+    "EMPTY data when compactification fails). For the model's own stage-2 executor and compactification (ExecStreams.stream_instr / finish_streams, "
+    "i.e. run2) the hypothesis is now a theorem and the statements hold without it: C02_fail_keeps_prev_run2, C02_code_classes_run2, from "
+    "C02_stream_pos_inv (every value of every live stream / stream map points at its own Ap / stream Call state of the result trace, pairwise "
+    "different positions, unique table keys, fewer than STREAM_MAX_SIZE values per stream: holds initially and is preserved by every instruction, "
+    "induction on the fuel over all instructions) and C02_finish_total / C02_compactify_total (no GenerationCompactificationError, no generation "
+    "index overflow; no side condition is left). What this does not cover: it is a theorem about the executor MODEL; that the Rust executor is that "
+    "model is the lock-step correspondence (sampled)",
     "signing failures (sign_produced_cids -> previous data + 20018; sign_result -> EMPTY data + 30001, a code in no documented class) are "
     "modelled as opaque booleans and are universally quantified; Ed25519 signing in fluence-keypair has no failing path, the only accepted key format",
     "C02_ok_data: 'includes everything executed in that run' is stated as: the data is the serialization of the final context's result trace, "
